@@ -34,6 +34,12 @@ THEOREMS = [
     # review items: behaviour at the edges and the proposed fixes
     "Inventory.collapseAux_no_nl", "Inventory.file_roundtrip_collapsed", "Inventory.split_ws_reads_like_sphinx",
     "Inventory.pySplitWs_join", "Inventory.splitters_agree",
+    # hunter round
+    "Inventory.roundtrip_numeric_token_counterexample",
+    # after df39b19: usable lines of damaged-but-trustworthy files are kept
+    "Inventory.truncated_lines_resolve", "Inventory.undecodable_lines_dropped", "Inventory.getPayload_truncated",
+    "Inventory.getPayload_undecodable", "Inventory.getPayload_intact", "Inventory.cutLastLine_append", "Inventory.cutLastLine_no_newline",
+    "Inventory.splitlines_joinNL", "Inventory.goodEntries_dropEmptyLast", "Inventory.old_damaged_file_all_or_nothing",
     # historical, about the code before 2626e70 (generateFileOld) and 96f18c4 (parseLineSp)
     "Inventory.old_header_newline_counterexample", "Inventory.old_double_space_wrong_key", "Inventory.old_tab_separated_rejected",
     # historical, about the parser before /repo commit f721ca9 (parsePartsOld)
@@ -41,6 +47,11 @@ THEOREMS = [
     "Inventory.old_good_lines_survive_counterexample",
 ]
 PARTIAL: dict = {
+    "Inventory.roundtrip": "hypothesis OkName on the full names (non-empty, no whitespace): a name with a blank-separated int token from the "
+                           "third token on is misread by both readers (roundtrip_needs_names, roundtrip_numeric_token_counterexample; open "
+                           "finding roundtrip:name-with-numeric-token). Names with blanks but no such token do round-trip in the code and the "
+                           "model (correspondence), but are outside the proved hypothesis. Same hypothesis in roundtrip_exact, written_lines, "
+                           "file_roundtrip, roundtrip_wellNamed.",
     "Inventory.prepareCache_total_partial": "excludes shutil.rmtree failing for a reason other than a missing directory (permissions ...) and an "
                                             "unparsable --intersphinx-cache-max-age when the cache is enabled (InvalidMaxAge); both happen "
                                             "before any inventory is loaded and are outside the wording of C17. A missing cache directory is "
@@ -62,7 +73,10 @@ RULE = ("(a) exhaustive: every line of <=6 tokens joined by single spaces (empty
         "the mutations, in malformed and in well-formed lines. (d) one reader over time: random sequences of update(url, bytes) "
         "(valid, mixed with malformed lines, truncated, corrupt, missing, a second version of the same inventory) interleaved "
         "with getLink(name), against the model run as a state machine and against what the served files say; non-trivial = "
-        "a name is looked up before a later load (re)defines it. (0) corpus, run first and seed-independent: the input of every "
+        "a name is looked up before a later load (re)defines it. Hunter round: module FILE names with blanks and numbers "
+        "('utils copy 2') in generated projects; files with one or two lines that are not UTF-8; for every truncation the "
+        "oracle computes, with zlib.decompressobj and independently of pydoctor, the complete lines the stream still holds and "
+        "requires the well-formed ones to resolve (a stream zlib rejects outright holds nothing trustworthy). (0) corpus, run first and seed-independent: the input of every "
         "recorded finding and the needed shape of every seeded change (priority-last line, header-truncated downloads, "
         "percent lines, a compressed body holding newline+'#', the stale-lookup sequence, a non-ASCII project). (e) cache: "
         "parseMaxAge on every string of <=4 characters over a 13-character alphabet + boundary values; prepareCache over "
@@ -77,8 +91,10 @@ RULE = ("(a) exhaustive: every line of <=6 tokens joined by single spaces (empty
 ASSUMPTIONS = [
     "int(token) is transcribed for tokens without non-ASCII decimal digits / non-ASCII whitespace (CPython accepts those too); "
     "such tokens are not generated for the model comparison. CPython's int_max_str_digits is the default 4300.",
-    "zlib and UTF-8 decoding are parameters of the model: the outcome observed at the real zlib.decompress / bytes.decode call "
-    "is handed to the model, and the bytes the real code hands to zlib are compared with the model's stripped payload.",
+    "zlib is a parameter of the model: what the real inflater returns (error / output with eof False / output with eof True) is "
+    "observed at the real call and handed to the model, and the bytes the real code hands to it are compared with the model's "
+    "stripped payload. UTF-8 decoding is a parameter in the theorems and the model's own strict decoder (utf8Decode) in the "
+    "correspondence, i.e. compared with bytes.decode on every payload and line.",
     "the writer model covers subjects = system.rootobjects (the driver's default); --html-subject is outside the model.",
     "Lean `Char` excludes surrogates: names containing lone surrogates are outside the model.",
     "linker: objForFullName, expandName, resolveName and the context search after the intersphinx test (walk up the parents, uncle "
@@ -100,6 +116,9 @@ SIG_SEPARATOR = "reader:repeated-separator:neither-resolved-nor-reported"
 SIG_HEADER_NL = "header:newline-in-project-name"
 SIG_PAGE_FILE = "location-decodes-to-missing-file:non-ascii"
 SIG_REPORT_ENC = "report-aborts:UnicodeEncodeError:ascii-stdout"
+SIG_TRUNCATED = "truncated-stream:complete-lines-lost"
+SIG_UNDECODABLE = "undecodable-line:whole-file-lost"
+SIG_NUMTOKEN = "roundtrip:name-with-numeric-token"
 
 
 # ------------------------------------------------------------------ helpers
@@ -204,26 +223,53 @@ def impl_parse(base: str, payload: str) -> Tuple[str, Optional[str]]:
 
 
 class ZSpy:
-    """stands in for the `zlib` module inside pydoctor.sphinx: records what is handed to decompress"""
+    """stands in for the `zlib` module inside pydoctor.sphinx: records what the inflater is handed and what it does:
+    Z = zlib.error, P:<bytes> = output with eof False (the stream ends early), C:<bytes> = output, stream complete.
+    Decoding is the model's own business (its UTF-8 decoder is compared through these streams)."""
     error = zlib.error
     compress = staticmethod(zlib.compress)
 
     def __init__(self) -> None:
         self.calls: List[Tuple[bytes, str]] = []
 
-    def decompress(self, data: bytes) -> bytes:
+    def _record(self, data: bytes, out: bytes, eof: bool) -> None:
+        ok = int_model_ok(out.decode("utf-8", "ignore"))
+        self.calls.append((data, ("C:" if eof else "P:") + hexb(out)) if ok else (data, "X"))
+
+    def decompress(self, data: bytes) -> bytes:      # the pre-df39b19 code path
         try:
             out = zlib.decompress(data)
         except zlib.error:
             self.calls.append((data, "Z"))
             raise
-        try:
-            text = out.decode('utf-8')
-        except UnicodeError:
-            self.calls.append((data, "D"))
-        else:
-            self.calls.append((data, "T:" + enc(text)) if int_model_ok(text) else (data, "X"))
+        self._record(data, out, True)
         return out
+
+    def decompressobj(self, *a, **k):
+        spy = self
+        real = zlib.decompressobj(*a, **k)
+
+        class D:
+            @property
+            def eof(self_):
+                return real.eof
+
+            @property
+            def unused_data(self_):
+                return real.unused_data
+
+            def decompress(self_, data, *aa):
+                try:
+                    out = real.decompress(data, *aa)
+                except zlib.error:
+                    spy.calls.append((data, "Z"))
+                    raise
+                spy._record(data, out, real.eof)
+                return out
+
+            def flush(self_, *aa):
+                return real.flush(*aa)
+        return D()
 
 
 class Cache:
@@ -363,6 +409,9 @@ def stream_lines(ctx: Ctx) -> None:
 NAMES = ["a", "b", "c", "d", "e", "f", "g", "h", "_p", "__dd__", "Cls", "K", "x", "y", "val", "Ünï", "名", "_", "a1", "B_b"]
 
 
+FILE_NAMES = ["utils copy 2", "a b", "x 7 y", "v 2", "m 1 2", "w py:x 3", "old 2019 backup"]
+
+
 def gen_body(rng, depth: int, in_class: bool, prefix: str, hidden: List[str], dup: bool) -> str:
     out = []
     used: List[str] = []
@@ -397,6 +446,9 @@ def gen_project(rng) -> Tuple[List[Tuple[str, str, Optional[str], bool]], List[s
 
     def add(parent: Optional[str], depth: int, used: List[str]) -> None:
         name = rng.choice([n for n in NAMES if n not in used] or ["zz"])
+        if rng.random() < 0.06:
+            # a module is named after its file: 'utils copy 2.py' (a duplicated file) is documented as module 'utils copy 2'
+            name = rng.choice([n for n in FILE_NAMES if n not in used] or [name])
         used.append(name)
         full = name if parent is None else parent + "." + name
         if rng.random() < 0.15:
@@ -565,14 +617,27 @@ def check_project(ctx: Ctx, system, label: Any, reqs, impls, pay) -> None:
         ctx.fail("update-raises:" + excs[0], label, "SphinxInventory.update raised on pydoctor's own objects.inv")
     got = dict(inv._links)
     want = {k: (BASE, v) for k, v in exp.items()}
+    # names the line format cannot carry (a blank-separated int token from the third token on): both readers take that
+    # token for the priority column. Recorded finding; everything else must still be exact.
+    affected = {k: numeric_token_key(k) for k in exp if numeric_token_key(k) is not None}
+    shadow = set(affected) | set(affected.values())
+    if affected:
+        ctx.count("project:numeric-token-names", len(affected))
+
+    def minus(d):
+        return {k: v for k, v in d.items() if k not in shadow}
     if got != want:
         missing = sorted(set(want) - set(got))[:3]
         extra = sorted(set(got) - set(want))[:3]
         wrong = sorted(k for k in want if k in got and got[k] != want[k])[:3]
         kind = "missing" if missing else "extra" if extra else "wrong-location"
-        ctx.fail("roundtrip-pydoctor:" + kind, label, f"pydoctor reader: missing={missing} extra={extra} wrong={wrong}")
+        if affected and minus(got) == minus(want):
+            ctx.fail(SIG_NUMTOKEN, label, f"pydoctor reader: visible object(s) {sorted(affected)[:3]} have no (or a wrong) entry: the written "
+                                          f"name holds a stand-alone number that is read as the priority column (missing={missing} extra={extra} wrong={wrong})")
+        else:
+            ctx.fail("roundtrip-pydoctor:" + kind, label, f"pydoctor reader: missing={missing} extra={extra} wrong={wrong}")
     for k, v in exp.items():
-        if inv.getLink(k) != f"{BASE}/{v}":
+        if k not in shadow and inv.getLink(k) != f"{BASE}/{v}":
             ctx.fail("getlink-wrong", label, f"getLink({k!r}) = {inv.getLink(k)!r}, documented at {BASE}/{v}")
             break
     flat, serr = sphinx_load(data, BASE)
@@ -586,7 +651,11 @@ def check_project(ctx: Ctx, system, label: Any, reqs, impls, pay) -> None:
             extra = sorted(set(flat) - set(swant))[:3]
             wrong = sorted(k for k in swant if k in flat and flat[k] != swant[k])[:3]
             kind = "missing" if missing else "extra" if extra else "wrong-or-duplicate"
-            ctx.fail("roundtrip-sphinx:" + kind, label, f"Sphinx loader: missing={missing} extra={extra} wrong={wrong}")
+            if affected and minus(flat) == minus(swant):
+                ctx.fail(SIG_NUMTOKEN, label, f"Sphinx loader: visible object(s) {sorted(affected)[:3]} have no (or a wrong) entry "
+                                              f"(missing={missing} extra={extra} wrong={wrong})")
+            else:
+                ctx.fail("roundtrip-sphinx:" + kind, label, f"Sphinx loader: missing={missing} extra={extra} wrong={wrong}")
     ctx.count("project:sphinx-loaded")
 
 
@@ -799,9 +868,28 @@ def stream_robust(ctx: Ctx) -> None:
         # direct oracle 1b: bytes that are unusable as a whole are reported (one error per failed update) and skipped
         if len(updates) == 1 and not excs:
             zs = inv._c17_z
-            unusable = (not zs) or zs[-1] in ("Z", "D")
-            if unusable and (len(inv._c17_log) != 1 or inv._c17_log[0][2] != -1 or inv._links):
+            undecodable = False
+            if zs and zs[-1][:2] in ("C:", "P:"):
+                try:
+                    bytes.fromhex(zs[-1][4:]).decode("utf-8")
+                except UnicodeError:
+                    undecodable = True
+            damaged = (not zs) or zs[-1] == "Z" or zs[-1].startswith("P:") or undecodable
+            partly_usable = survivable_lines(updates[0][1])[0] is not None and "/" in updates[0][0]
+            if damaged and not partly_usable and (len(inv._c17_log) != 1 or inv._c17_log[0][2] != -1 or inv._links):
                 ctx.fail("unusable-not-reported", label, f"unusable inventory: {len(inv._c17_log)} errors logged, {len(inv._links)} links kept")
+            if damaged and partly_usable and not inv._c17_log:
+                ctx.fail("damage-not-reported", label, "an inventory that ends early / holds undecodable lines was loaded without any report")
+        # direct oracle 1c: a stream that merely ends early, or holds lines that are not UTF-8, still has usable lines:
+        # the well-formed ones among them resolve
+        if len(updates) == 1 and not excs:
+            kind_s, lines_s = survivable_lines(updates[0][1])
+            if kind_s and "/" in updates[0][0]:
+                lost = [l.split(" ")[0] for l in lines_s if l in GOOD_LINES and inv.getLink(l.split(" ")[0]) != f"{BASE}/{good_want[l.split(' ')[0]]}"]
+                ctx.count("robust:survivable:" + kind_s)
+                if lost:
+                    ctx.fail(SIG_TRUNCATED if kind_s == "truncated" else SIG_UNDECODABLE, label,
+                             f"{kind_s} inventory: {len(lost)} complete well-formed line(s) of the file do not resolve, e.g. {lost[:3]}")
         # direct oracle 2: the well-formed lines of the same file still resolve
         if expect_good:
             bad = [n for n in good_names if inv.getLink(n) != f"{BASE}/{good_want[n]}"]
@@ -854,6 +942,15 @@ def stream_robust(ctx: Ctx) -> None:
     for _ in range(nbytes):
         d = bytes(ctx.rng.choice([35, 10, 120, 156, 0, 255, ctx.rng.randrange(256)]) for _ in range(ctx.rng.randint(0, 24)))
         one("random-bytes", [(URL, d)], {"session": [[URL, d.hex()]]})
+    # 3b. one or two lines that are not UTF-8 among the well-formed ones (a Latin-1 title, a Latin-1 name, stray bytes)
+    bad_bytes = [b"intro std:label -1 index.html#intro Pr\xe9sentation g\xe9n\xe9rale", b"pkg.caf\xe9 py:function -1 pkg.html#caf -",
+                 b"\xff\xfe", b"zz.cut py:function -1 z.html#\xc3", b"\x80\x81 junk"]
+    for _ in range(60 if ctx.quick else 1500):
+        blines = [l.encode("utf-8") for l in GOOD_LINES]
+        for _ in range(ctx.rng.randint(1, 2)):
+            blines.insert(ctx.rng.randint(0, len(blines)), ctx.rng.choice(bad_bytes))
+        d = header + zlib.compress(b"\n".join(blines) + b"\n")
+        one("non-utf8-line", [(URL, d)], {"session": [[URL, d.hex()]], "kind": "non-utf8-line"})
     # 4. line mutations mixed with the well-formed lines
     nmut = 1200 if ctx.quick else 40000
     for _ in range(nmut):
@@ -879,6 +976,48 @@ def stream_robust(ctx: Ctx) -> None:
                         ctx.fail(SIG_SEPARATOR, lab, f"the line of zz{i}.obj ({kd}) is neither resolved nor reported; keys: {[k for k in inv._links if 'zz' in k]}")
                         break
     compare(ctx, "robustness", reqs, impls, pay)
+
+
+def survivable_lines(data: Optional[bytes]) -> Tuple[Optional[str], List[str]]:
+    """Independent of pydoctor: the complete, decodable lines a damaged-but-trustworthy payload still holds.
+    ("truncated", lines) for a zlib stream that ends early (what was inflated is a correct prefix; the last line may be
+    cut), ("undecodable", lines) for a complete stream with lines that are not UTF-8; (None, []) otherwise (intact, or
+    damaged so that nothing can be trusted: zlib reports an error, e.g. a failed checksum)."""
+    body = strip_comments_py(data or b"")
+    if not body:
+        return None, []
+    d = zlib.decompressobj()
+    try:
+        out = d.decompress(body)
+    except zlib.error:
+        return None, []
+    kind = None
+    if not d.eof:
+        kind = "truncated"
+        out = out[:out.rfind(b"\n") + 1]
+    try:
+        out.decode("utf-8")
+        if kind is None:
+            return None, []
+    except UnicodeError:
+        kind = kind or "undecodable"
+    lines = []
+    for l in out.split(b"\n"):
+        try:
+            lines.append(l.decode("utf-8"))
+        except UnicodeError:
+            pass
+    return kind, lines
+
+
+def numeric_token_key(full: str) -> Optional[str]:
+    """a written name whose blank-separated tokens hold an int at index >= 2 is read back (by both readers) as the
+    shorter name returned here; None for names the line format can carry"""
+    toks = full.split()
+    for i in range(2, len(toks)):
+        if is_int(toks[i]):
+            return " ".join(toks[:i - 1])
+    return None
 
 
 def strip_comments_py(data: bytes) -> bytes:
@@ -955,6 +1094,7 @@ def stream_sequences(ctx: Ctx) -> None:
             pay.append(label)
         # direct oracle: replay the sequence against what each served file *says* (no parser, no model)
         exp: Dict[str, Tuple[str, str]] = {}
+        exp_all_or_nothing: Dict[str, Tuple[str, str]] = {}   # what a reader that drops interrupted downloads entirely would hold
         asked_before: set = set()
         nontriv = False
         ai = 0
@@ -968,12 +1108,19 @@ def stream_sequences(ctx: Ctx) -> None:
                         if n in asked_before:
                             nontriv = True
                         exp[n] = (base, l)
+                        exp_all_or_nothing[n] = (base, l)
                 elif st[2]:
                     try:  # a damaged copy that still decompresses would legitimately load something: not judged
                         zlib.decompress(strip_comments_py(st[2]))
                         skip = True
                     except zlib.error:
                         pass
+                    kind_s, lines_s = survivable_lines(st[2])
+                    if kind_s == "truncated" and "/" in st[1]:   # the complete lines of an interrupted download are usable
+                        for l in lines_s:
+                            c = l.split(" ")
+                            if len(c) == 5 and c[1].startswith("py:"):
+                                exp[c[0]] = (st[1].rsplit("/", 1)[0], c[3])
             else:
                 name = st[1]
                 asked_before.add(name)
@@ -985,6 +1132,13 @@ def stream_sequences(ctx: Ctx) -> None:
                 if name in exp and exp[name][1]:
                     b, l = exp[name]
                     want = b + "/" + (l[:-1] + name if l.endswith("$") else l)
+                want_old = None
+                if name in exp_all_or_nothing and exp_all_or_nothing[name][1]:
+                    b, l = exp_all_or_nothing[name]
+                    want_old = b + "/" + (l[:-1] + name if l.endswith("$") else l)
+                if got != want and got == want_old:
+                    ctx.fail(SIG_TRUNCATED, label, f"getLink({name!r}) = {got!r}: the complete lines of an interrupted download were dropped, expected {want!r}")
+                    break
                 if got != want:
                     ctx.fail("lookup-not-current", label,
                              f"getLink({name!r}) = {got!r} but the inventories loaded so far say {want!r} (earlier lookups / failed loads must not matter)")
@@ -1074,8 +1228,45 @@ def stream_corpus(ctx: Ctx) -> None:
     system = build_system(mods, [])
     check_project(ctx, system, {"corpus": "non-ascii-identifiers", "modules": [list(m) for m in mods], "hidden": []}, reqs, impls, pay)
     ctx.count("corpus:non-ascii-project")
+    # hunter round (3): a module named after the file 'utils copy 2.py'
+    mods = [("def helper():\n    pass\n", "pkg", None, True), ("def helper():\n    pass\n", "utils", "pkg", False),
+            ("def helper():\n    pass\n", "utils copy 2", "pkg", False), ("def helper():\n    pass\n", "utils copy", "pkg", False)]
+    system = build_system(mods, [])
+    check_project(ctx, system, {"corpus": "module-file-name-with-number", "modules": [list(m) for m in mods], "hidden": []}, reqs, impls, pay)
+    ctx.count("corpus:module-file-name-with-number")
     compare(ctx, "corpus", reqs, impls, pay)
     corpus_review_items(ctx)
+    corpus_hunter_items(ctx)
+
+
+def corpus_hunter_items(ctx: Ctx) -> None:
+    """hunter round (1), (2): an interrupted download and a Latin-1 line — the complete well-formed lines still resolve"""
+    lines = ["ext.first.func py:function 1 ext.first.html#func -"] + [f"ext.m{i}.f py:function 1 ext.m{i}.html#f -" for i in range(300)]
+    full = SEQ_HEADER + zlib.compress(("\n".join(lines) + "\n").encode())
+    cut = full[:len(SEQ_HEADER) + (len(full) - len(SEQ_HEADER)) * 6 // 10]
+    latin = SEQ_HEADER + zlib.compress(b"ext.mod py:module 0 ext.mod.html -\next.mod.func py:function 1 ext.mod.html#func -\n"
+                                       b"intro std:label -1 index.html#intro Pr\xe9sentation g\xe9n\xe9rale\next.mod.Klass py:class 1 ext.mod.Klass.html -\n")
+    flipped = bytearray(full); flipped[-2] ^= 0x55
+    for tag, data, sig in [("truncated-60pct", cut, SIG_TRUNCATED), ("latin1-label-line", latin, SIG_UNDECODABLE),
+                           ("adler-flipped-control", bytes(flipped), None)]:
+        kind, usable = survivable_lines(data)
+        _, _, excs, inv = run_session([(URL, data)], [])
+        ctx.case("corpus " + tag, True)
+        ctx.count("corpus:" + tag)
+        if excs:
+            ctx.fail("update-raises:" + excs[0], {"corpus": tag}, f"corpus {tag}: update raised {excs[0]}")
+            continue
+        lost = []
+        for l in usable:
+            c = l.split(" ")
+            if len(c) == 5 and c[1].startswith("py:") and inv.getLink(c[0]) != f"{BASE}/{c[3]}":
+                lost.append(c[0])
+        if lost and sig:
+            ctx.fail(sig, {"corpus": tag, "steps": [["U", URL, data.hex()], ["Q", lost[0]]]},
+                     f"corpus {tag}: {len(lost)} of {len(usable)} complete well-formed lines do not resolve, e.g. {lost[:2]}")
+        # a failed checksum leaves nothing trustworthy: exactly one error, nothing kept (decided outside the property)
+        if sig is None and (inv._links or len(inv._c17_log) != 1):
+            ctx.fail("corrupt-stream-partly-used", {"corpus": tag}, "a stream whose checksum fails must be reported once and not used")
 
 
 def corpus_review_items(ctx: Ctx) -> None:
@@ -1356,6 +1547,12 @@ def stream_cache(ctx: Ctx) -> None:
                             for n2, _, l2 in SEQ_INV[key_of[u2]][1]:
                                 if n2 == n:
                                     cands.add(u2.rsplit("/", 1)[0] + "/" + (l2[:-1] + n if l2.endswith("$") else l2))
+                        for u2 in urls:      # the complete lines of an interrupted download may (must, by the property) count too
+                            if isinstance(plan[u2], bytes) and u2 not in loaded and "/" in u2:
+                                for l in survivable_lines(plan[u2])[1]:
+                                    c = l.split(" ")
+                                    if len(c) == 5 and c[0] == n:
+                                        cands.add(u2.rsplit("/", 1)[0] + "/" + (c[3][:-1] + n if c[3].endswith("$") else c[3]))
                         got = system.intersphinx.getLink(n)
                         if got not in cands:
                             ctx.fail("fetch-good-inventory-lost", label, f"getLink({n!r}) = {got!r} after the fetch loop, expected one of {sorted(cands)}")
